@@ -396,4 +396,117 @@ theorem frame_delivery (s : St) (e : Ev) (h : (step s e).frames ≠ s.frames) :
       all_goals rfl
     · rfl
 
+/-! ## bounded coasting: the stream state cannot be held for ever without a sync word -/
+
+theorem hMAXMISS : MAXMISS = 10 := gen_consts.2.2.1
+
+/-- events of a sample in which no stream sync word is found, the end-of-transmission correlator does not fire, and a decoded
+    frame leaves the decoder in a stream state -/
+def NoSync (e : Ev) : Prop := 0 ≤ e.lsfUpd ∧ e.eotTrig = false ∧ (e.decState = 0 ∨ e.decState = 1)
+
+/-- coasting invariant relative to the state (f0 frames delivered, m0 missed sync words) at which coasting began -/
+def Coast (f0 m0 : Nat) (s : St) : Prop :=
+  s.dcd = true ∧ s.msc ≤ 10 ∧ ((s.st = 2 ∧ s.frames + m0 ≤ s.msc + f0) ∨ (s.st = 6 ∧ s.frames + m0 + 1 ≤ s.msc + f0))
+
+theorem doStreamSync_coast (s : St) (e : Ev) (he : NoSync e) :
+    (doStreamSync s e).dcd = s.dcd ∧ (doStreamSync s e).frames = s.frames ∧
+    (((doStreamSync s e).st = s.st ∧ (doStreamSync s e).msc = s.msc) ∨ ((doStreamSync s e).st = 6 ∧ (doStreamSync s e).msc = s.msc + 1 ∧ s.msc < 10) ∨
+     (doStreamSync s e).st = 0) := by
+  obtain ⟨h1, h2, _⟩ := he
+  have hl : ¬ e.lsfUpd < 0 := by omega
+  simp only [doStreamSync, hMINS, hMAXS, hMAXMISS, h2, hl]
+  repeat' split
+  all_goals (refine ⟨rfl, rfl, ?_⟩)
+  all_goals simp_all
+
+theorem doFrame_coast (s : St) (e : Ev) (he : NoSync e) :
+    (doFrame s e).dcd = s.dcd ∧ (doFrame s e).msc = s.msc ∧
+    (((doFrame s e).st = s.st ∧ (doFrame s e).frames = s.frames) ∨ ((doFrame s e).st = 2 ∧ (doFrame s e).frames = s.frames + 1)) := by
+  obtain ⟨_, _, hd⟩ := he
+  simp only [doFrame]
+  repeat' split
+  all_goals (refine ⟨rfl, rfl, ?_⟩)
+  all_goals simp_all
+
+theorem advance_coast (s : St) : (advance s).dcd = s.dcd ∧ (advance s).msc = s.msc ∧ (advance s).st = s.st ∧ (advance s).frames = s.frames := by
+  simp only [advance]
+  repeat' split
+  all_goals exact ⟨rfl, rfl, rfl, rfl⟩
+
+theorem updateDcd_coast (s : St) (d : Bool) (hd : s.dcd = true) :
+    (updateDcd s d = s) ∨ (updateDcd s d).st = 0 := by
+  simp only [updateDcd, hd]
+  cases d <;> simp
+
+/-- one sample of coasting -/
+theorem coast_step (f0 m0 : Nat) (s : St) (e : Ev) (h : Coast f0 m0 s) (he : NoSync e) (hnz : (step s e).st ≠ 0) : Coast f0 m0 (step s e) := by
+  obtain ⟨hd, hm, hst⟩ := h
+  obtain ⟨a1, a2, a3, a4⟩ := advance_coast (tick s)
+  have b1 : (advance (tick s)).dcd = true := by rw [a1]; exact hd
+  have b2 : (advance (tick s)).msc = s.msc := a2
+  have b3 : (advance (tick s)).st = s.st := a3
+  have b4 : (advance (tick s)).frames = s.frames := a4
+  -- the state switch
+  have hD : (dispatch (advance (tick s)) e).st ≠ 0 → Coast f0 m0 (dispatch (advance (tick s)) e) := by
+    generalize advance (tick s) = m at *
+    intro hz
+    rcases hst with ⟨h2, hf⟩ | ⟨h6, hf⟩
+    · have hd' : dispatch m e = doStreamSync m e := by simp only [dispatch, b3, h2]
+      rw [hd'] at hz ⊢
+      obtain ⟨c1, c2, c3⟩ := doStreamSync_coast m e he
+      refine ⟨by rw [c1, b1], ?_, ?_⟩
+      · rcases c3 with ⟨_, c⟩ | ⟨_, c, cl⟩ | c
+        · rw [c, b2]; exact hm
+        · rw [c, b2]; rw [b2] at cl; omega
+        · exact absurd c hz
+      · rcases c3 with ⟨cs, c⟩ | ⟨cs, c, cl⟩ | c
+        · left; exact ⟨by rw [cs, b3, h2], by rw [c2, c, b4, b2]; exact hf⟩
+        · right; exact ⟨cs, by rw [c2, c, b4, b2]; omega⟩
+        · exact absurd c hz
+    · have hd' : dispatch m e = doFrame m e := by simp only [dispatch, b3, h6]
+      rw [hd']
+      obtain ⟨c1, c2, c3⟩ := doFrame_coast m e he
+      refine ⟨by rw [c1, b1], by rw [c2, b2]; exact hm, ?_⟩
+      rcases c3 with ⟨cs, c⟩ | ⟨cs, c⟩
+      · right; exact ⟨by rw [cs, b3, h6], by rw [c, c2, b4, b2]; exact hf⟩
+      · left; exact ⟨cs, by rw [c, c2, b4, b2]; omega⟩
+  -- the carrier-detect poll at the end of the step either changes nothing or drops to UNLOCKED
+  have hdt : (tick s).dcd = true := hd
+  have hX : (dispatch (advance (tick s)) e).dcd = true := by rw [dispatch_dcd, (advance_core _).2.2]; exact hdt
+  have hstep : step s e = dispatch (advance (tick s)) e ∨ step s e = setCnt0 (dispatch (advance (tick s)) e) ∨ (step s e).st = 0 := by
+    simp only [step, hdt, Bool.true_eq_false, ↓reduceIte]
+    split
+    · rcases updateDcd_coast (dispatch (advance (tick s)) e) e.det hX with hu | hu
+      · right; left; rw [hu]
+      · right; right; exact hu
+    · left; rfl
+  rcases hstep with hs | hs | hs
+  · rw [hs] at hnz ⊢; exact hD hnz
+  · rw [hs] at hnz ⊢; exact hD hnz
+  · exact absurd hs hnz
+
+/-- **coasting is bounded, for every signal**: start where a stream frame has just been delivered with `m0 ≤ 10` missed sync words on
+    the count.  However the correlators, the Viterbi cost and the clock behave, if no stream sync word is found, then as long as the
+    demodulator has not given up (state UNLOCKED, after which it searches for sync words afresh) it has delivered at most `10 − m0`
+    further frames: it cannot hold the stream state for ever on frames that merely decode below the cost limit. -/
+theorem coasting_bounded (s0 : St) (es : List Ev) (h0 : s0.st = 2 ∧ s0.dcd = true ∧ s0.msc ≤ 10) (he : ∀ e ∈ es, NoSync e)
+    (hnz : ∀ k, k ≤ es.length → (run s0 (es.take k)).st ≠ 0) :
+    (run s0 es).frames + s0.msc ≤ s0.frames + 10 := by
+  have hc : ∀ k, k ≤ es.length → Coast s0.frames s0.msc (run s0 (es.take k)) := by
+    intro k
+    induction k with
+    | zero => intro _; simp only [List.take_zero, run, List.foldl_nil]; exact ⟨h0.2.1, h0.2.2, Or.inl ⟨h0.1, by omega⟩⟩
+    | succ k ih =>
+      intro hk
+      have hk' : k < es.length := by omega
+      rw [run_take_succ s0 es k hk']
+      apply coast_step _ _ _ _ (ih (by omega)) (he _ (List.getElem_mem hk'))
+      rw [← run_take_succ s0 es k hk']
+      exact hnz (k + 1) hk
+  have := hc es.length (Nat.le_refl _)
+  rw [List.take_length] at this
+  obtain ⟨_, hm, hst⟩ := this
+  rcases hst with ⟨_, hf⟩ | ⟨_, hf⟩ <;> omega
+
+
 end M17.C03
